@@ -178,6 +178,14 @@ static void sc_new(char **av, int ac)
 	win_close();
 	out(" shape=nr_global:%d", (int)NR_GLOBAL_ATTRS);
 	if (ctx) {
+		/* option templates of addrxlat.default in creation order: is it a directory */
+		const struct attr_data *c; char bits[64]; int nb = 0, i;
+		for (c = dgattr(ctx->dict, GKI_dir_xlat_default)->dir; c && nb < 63; c = c->next)
+			bits[nb++] = c->template->type == KDUMP_DIRECTORY ? '1' : '0';
+		out(";opts:");
+		for (i = nb; i-- > 0; ) out("%c", bits[i]);
+	}
+	if (ctx) {
 		const char *s;
 		kdump_status st;
 		LIB(st = kdump_set_string_attr(ctx, "addrxlat.default.arch", "x86_64"));
@@ -199,13 +207,19 @@ static void sc_clone(char **av, int ac)
 	for (slot = 0; slot < PER_CTX_SLOTS; ++slot) if (ctx->shared->per_ctx_size[slot]) ++nslot;
 	out(" shape=slots:%d;flags:%lu;", nslot, flags);
 	if (flags & KDUMP_CLONE_XLAT) {
+		/* per attribute: number of ancestors (below the root) that do not exist in
+		 * the clone yet at that time, then the subtree's shape */
+		const struct attr_data *done[64]; int ndone = 0;
 		unsigned i;
 		for (i = 0; i < 3; ++i) {
-			/* path components above the attribute that do not exist in a fresh clone: depth */
 			const struct attr_data *a = dgattr(ctx->dict, globals[i]), *p;
-			int depth = 0;
-			for (p = a->parent; p && p->parent; p = p->parent) ++depth;
-			out("p%d:", depth);
+			int above = 0, j;
+			for (p = a->parent; p && p->parent; p = p->parent) {
+				for (j = 0; j < ndone; ++j) if (done[j] == p) break;
+				if (j == ndone) { ++above; if (ndone < 64) done[ndone++] = p; }
+			}
+			if (ndone < 64) done[ndone++] = a;
+			out("p%d:", above);
 			shape_subtree(a);
 			out(";");
 		}
@@ -454,7 +468,6 @@ static void sc_wb_xlat(char **av, int ac)
 	int clone = atoi(av[0]);
 	struct kdump_xlat *orig = NULL, *x;
 	if (clone) { LIB(orig = xlat_new()); if (!orig) _exit(4); orig->xlat_caps = 5; }
-	oom_log_events = 1;
 	win_open();
 	x = clone ? CALLP("xlat_clone", xlat_clone(orig)) : CALLP("xlat_new", xlat_new());
 	note_held();
@@ -471,7 +484,6 @@ static void sc_wb_fcache_new(char **av, int ac)
 	unsigned nfds = atoi(av[0]), n = atoi(av[1]), order = atoi(av[2]);
 	int fds[8] = { 0, 0, 0, 0, 0, 0, 0, 0 };
 	struct fcache *fc;
-	oom_log_events = 1;
 	win_open();
 	fc = CALLP("fcache_new", fcache_new(nfds, fds, n, order));
 	note_held();
@@ -483,7 +495,6 @@ static void sc_wb_cache_alloc(char **av, int ac)
 {
 	unsigned n = atoi(av[0]); size_t size = argull(av, 1);
 	struct cache *c;
-	oom_log_events = 1;
 	win_open();
 	c = CALLP("cache_alloc", cache_alloc(n, size));
 	note_held();
@@ -496,19 +507,15 @@ static void sc_wb_pfn_regions(char **av, int ac)
 	unsigned long cnt = argull(av, 0), i, added = 0;
 	struct pfn_file_map map;
 	memset(&map, 0, sizeof map);
-	oom_log_events = 1;
 	win_open();
 	for (i = 0; i < cnt; ++i) {
-		struct pfn_region rgn = { .pfn = 2 * i, .cnt = 1, .pos = i << 12 };
+		struct pfn_region rgn = { .pfn = 2 * added, .cnt = 1, .pos = i << 12 };
 		struct pfn_region *old = map.regions;
 		size_t oldn = map.nregions;
 		struct pfn_region *r = CALLP("add_pfn_region", add_pfn_region(&map, &rgn));
 		if (!r) {
 			if (map.regions != old || map.nregions != oldn)
 				surv_fail("map changed by a failed add_pfn_region");
-			/* the map is still usable: retry */
-			r = add_pfn_region(&map, &rgn);
-			if (!r) surv_fail("retry of add_pfn_region failed");
 		}
 		if (r) ++added;
 	}
@@ -516,7 +523,7 @@ static void sc_wb_pfn_regions(char **av, int ac)
 	win_close();
 	for (i = 0; i < map.nregions; ++i)
 		if (map.regions[i].pfn != 2 * i) { surv_fail("region %lu corrupted", i); break; }
-	if (added != cnt) surv_fail("regions lost");
+	if (added != map.nregions || added + oom_failed_calls != cnt) surv_fail("regions lost");
 	out(" shape=nregions:%zu", map.nregions);
 	LIB(free(map.regions));
 }
@@ -530,7 +537,6 @@ static void sc_wb_dict(char **av, int ac)
 	if (!ctx) _exit(4);
 	name_ctx_locks(ctx);
 	out(" shape=nr_global:%d", (int)NR_GLOBAL_ATTRS);
-	oom_log_events = 1;
 	win_open();
 	d = clone ? CALLP("attr_dict_clone", attr_dict_clone(ctx->dict))
 		  : CALLP("attr_dict_new", attr_dict_new(ctx->shared));
@@ -560,7 +566,6 @@ static void sc_wb_create_path(char **av, int ac)
 		plen = p ? p - path : 0;
 	}
 	out(" shape=missing:%d", missing);
-	oom_log_events = 1;
 	win_open();
 	a = CALLP("create_attr_path", create_attr_path(ctx->dict, root, path, strlen(path), &tmpl));
 	note_held();
@@ -597,7 +602,6 @@ static void sc_wb_clone_path(char **av, int ac)
 	for (p = orig->parent; p && p->parent; p = p->parent) ++depth;
 	out(" shape=p%d:", depth);
 	shape_subtree(orig);
-	oom_log_events = 1;
 	win_open();
 	a = CALLP("clone_attr_path", clone_attr_path(d, orig));
 	note_held();
@@ -628,16 +632,20 @@ static const struct { const char *name; void (*fn)(char **, int); int minargs; }
 static void emit_events(void)
 {
 	unsigned long i;
-	if (!oom_log_events) { out(" ev=-"); return; }
+	if (!oom_log_events || oom_nev >= OOM_MAXEV) { out(" ev=-"); return; }
 	out(" ev=");
 	for (i = 0; i < oom_nev; ++i) {
 		struct oom_ev *e = &oom_evs[i];
-		if (e->kind == 'A' || e->kind == 'F' || e->kind == 'X')
-			out("%s%c%lx", i ? "," : "", e->kind, (unsigned long)e->a);
+		if (e->kind == 'A' || e->kind == 'F')
+			out("%s%c%lx.%lu", i ? "," : "", e->kind, (unsigned long)e->a, e->serial);
+		else if (e->kind == 'X')
+			out("%sX%lx", i ? "," : "", (unsigned long)e->a);
 		else {
 			int slot = (int)(uintptr_t)e->a;
-			out("%s%c:%s", i ? "," : "", e->kind,
-			    oom_locks[slot].name ? oom_locks[slot].name : "lock");
+			if (oom_locks[slot].name)
+				out("%s%c:%s", i ? "," : "", e->kind, oom_locks[slot].name);
+			else
+				out("%s%c:lock%d", i ? "," : "", e->kind, slot);
 		}
 	}
 	if (!oom_nev) out("none");
